@@ -302,6 +302,13 @@ class SpecEval:
             v = ty.opt_val(v)
         return SV(ty.Int, ty.typeof(v.e))
 
+    def f_cast(self, node, env):
+        """cast(x, 'Class'): x seen as an object of that record class (to be used under an isinstance guard; no obligation of its own)"""
+        v = self.eval(node.args[0], env)
+        if isinstance(v.t, ty.Opt):
+            v = ty.opt_val(v)
+        return SV(ty.RefT(node.args[1].value), v.e)
+
     def f_isinstance(self, node, env):
         v = self.eval(node.args[0], env)
         return SV(ty.Bool, self.isinstance_(v, node.args[1]))
